@@ -191,6 +191,20 @@ USES = [("test", "new RegExp(P).test(S)"), ("exec", "var m = new RegExp(P).exec(
         ("match-g", "var m = S.match(new RegExp(P, 'g')); m === null ? null : m.length"), ("replace", "S.replace(new RegExp(P, 'g'), 'x').length"),
         ("split", "S.split(new RegExp(P)).length"), ("search", "S.search(new RegExp(P))"),
         ("caught", "var out; try { out = new RegExp(P).test(S); } catch (e) { out = 'caught:' + e.name; } out")]
+# every entry point of the matcher: a budget that runs out must come back as a value or a catchable error through each of them
+USES_ALL = USES + [
+    ("replace-nonglobal", "var out; try { out = S.replace(new RegExp(P), 'x').length; } catch (e) { out = 'caught:' + e.name; } out"),
+    ("replace-fn", "var out; try { out = S.replace(new RegExp(P), function (m) { return 'y'; }).length; } catch (e) { out = 'caught:' + e.name; } out"),
+    ("match-nonglobal", "var out; try { var m = S.match(new RegExp(P)); out = m === null ? null : m.length; } catch (e) { out = 'caught:' + e.name; } out"),
+    ("match-string-pattern", "var out; try { var m = S.match(P); out = m === null ? null : m.length; } catch (e) { out = 'caught:' + e.name; } out"),
+    ("search-string-pattern", "var out; try { out = S.search(P); } catch (e) { out = 'caught:' + e.name; } out"),
+    ("replaceAll", "var out; try { out = S.replaceAll(new RegExp(P, 'g'), 'x').length; } catch (e) { out = 'caught:' + e.name; } out"),
+    ("split-limit", "var out; try { out = S.split(new RegExp(P), 2).length; } catch (e) { out = 'caught:' + e.name; } out"),
+    ("sticky-test", "var out; try { out = new RegExp(P, 'y').test(S); } catch (e) { out = 'caught:' + e.name; } out"),
+    ("sticky-exec-lastIndex", "var out; try { var r = new RegExp(P, 'gy'); r.lastIndex = 1; out = r.exec(S) === null; } catch (e) { out = 'caught:' + e.name; } out"),
+    ("literal-via-eval", "var out; try { out = (0, eval)('/' + P + '/').test(S); } catch (e) { out = 'caught:' + e.name; } out"),
+    ("uncaught-replace", "S.replace(new RegExp(P), 'x').length"), ("uncaught-match", "S.match(new RegExp(P))"),
+]
 
 
 def main(ctx):
@@ -209,7 +223,7 @@ def main(ctx):
     lens_free = [5, 10, 20, 30] if ctx.quick else [5, 10, 20, 30, 60, 100]
     lens_tl = [10, 30, 100, 1000] if ctx.quick else [10, 30, 100, 1000, 10000]
     for pat, unit in FAMILIES:
-        for un, use in (USES if not ctx.quick else USES[:3] + USES[-1:]):
+        for un, use in (USES_ALL if not ctx.quick else USES[:3] + USES[-1:] + [USES_ALL[7 + (ctx.seed + len(pat)) % 12]]):
             for L in lens_free:
                 fam.append({"pattern": pat, "subject": (unit * L)[:L], "use": use, "usen": un, "D": None})
             for L in lens_tl:
@@ -218,6 +232,10 @@ def main(ctx):
     for pat, unit in (("(?:a|b)*c", "a"), ("(a|b|c)*d", "abc"), ("(?:.|\\n)*x", "a"), ("(?:a|b)*?c", "ab")):
         for un, use in USES[:2] + USES[-1:]:
             fam.append({"pattern": pat, "subject": (unit * 20000)[:20000], "use": use, "usen": un, "D": 400000})
+        if not ctx.quick or pat == "(?:a|b)*c":
+            # the backtrack-stack budget runs out (one entry per character, no time limit involved) under every entry point
+            for un, use in USES_ALL:
+                fam.append({"pattern": pat, "subject": (unit * 5200)[:5200] + "!", "use": use, "usen": un, "D": None, "anchor": True})
     ep = engine_pool()
     try:
         cres = ep.map({"mod": "checks.C10", "fn": "w_construct"}, [{"items": items[i:i + 40]} for i in range(0, len(items), 40)], batch=1,
